@@ -240,7 +240,8 @@ def run(run_, pkg, tier):
             tasks.append((key, "C08-c-linear-in-information", chi2_obligation("BaseEdge", n), "%s:%d" % (cfn._gs_module, cfn.lineno)))
     gfn = pkg.method("Graph", "_calc_chi2_gradient_hessian")
     perms = [Scenario("order-reversed", ["PoseR2", "PoseSE2", "PoseR2"][::-1], [tuple(2 - k for k in e) for e in BASE_E], fixed=[2]),
-             [s for s in SCENARIOS if s.name == "parallel-only"][0], [s for s in SCENARIOS if s.name == "fixed-two"][0]]
+             [s for s in SCENARIOS if s.name == "parallel-only"][0], [s for s in SCENARIOS if s.name == "parallel-free"][0],
+             [s for s in SCENARIOS if s.name == "fixed-two"][0]]
     for scn in perms:
         key = "C08-ac/assembly/%s" % scn.name
         if run_.wants(key):
